@@ -100,6 +100,7 @@ func runC20(c *Ctx) {
 			nMethods++
 			checkSetMethod(c, p, fn, spec[1])
 			checkReturnedSetUsable(c, p, fn, spec[1])
+			checkOperandMapsChosen(c, p, fn, spec[1])
 			if m.Name() == "Equal" {
 				checkSetEqual(c, p, fn, spec[1])
 			}
@@ -197,6 +198,12 @@ func checkComparators(c *Ctx, p *core.Prog, fn *ssa.Function, typ string) {
 					continue
 				}
 				for _, side := range []ssa.Value{bo.X, bo.Y} {
+					if cl, isCall := side.(*ssa.Call); isCall {
+						if _, isB := cl.Call.Value.(*ssa.Builtin); !isB {
+							c.R.Fail("R20.8", typ+"."+fn.Name()+": elements are ordered by comparing them, not a value computed from them", p.Pos(bo.Pos()),
+								"the ordering function compares the results of "+eng.Describe(cl)+" instead of the elements: two different elements that the function maps to the same value are in no defined order, and the result is not sorted in the element order callers rely on (sort.SearchStrings, comparison of two Sorted lists)")
+						}
+					}
 					if d, isD := side.(*ssa.BinOp); isD && d.Op == token.SUB {
 						if bt, isB := d.Type().Underlying().(*types.Basic); isB && bt.Info()&types.IsInteger != 0 {
 							c.R.Fail("R20.8", typ+"."+fn.Name()+": elements are ordered by comparing them, not their difference", p.Pos(bo.Pos()),
@@ -1173,4 +1180,43 @@ func checkReturnedSetUsable(c *Ctx, p *core.Prog, fn *ssa.Function, typ string) 
 	}
 	c.R.Check(bad == "", "R20.15", typ+"."+fn.Name()+": the set it returns has its map allocated", p.Pos(fn.Pos()), fmt.Sprintf("%d composite literal(s) returned, each with a map stored on every path", nR),
 		bad+": the result is a set with a nil map - reading it works, the first Insert into it (or an operation that fills it, like Unique) panics with assignment to entry in nil map")
+}
+
+// checkOperandMapsChosen: R20.16. Where an operation picks "the smaller" and "the larger" of its two operands' maps, it picks
+// for every pair of sizes: a map variable that is ranged over or looked up in is one of the operands' maps on every path - not
+// the nil it was declared with (a switch without a branch for equal sizes leaves both variables nil: the loop does nothing
+// and two sets of equal size are reported disjoint).
+func checkOperandMapsChosen(c *Ctx, p *core.Prog, fn *ssa.Function, typ string) {
+	bad := ""
+	n := 0
+	chk := func(v ssa.Value, pos token.Pos) {
+		ph, ok := core.Unspill(v).(*ssa.Phi)
+		if !ok {
+			return
+		}
+		if _, isMap := ph.Type().Underlying().(*types.Map); !isMap {
+			return
+		}
+		n++
+		for _, e := range ph.Edges {
+			if k, isK := e.(*ssa.Const); isK && k.IsNil() && bad == "" {
+				bad = p.Pos(pos)
+			}
+		}
+	}
+	for _, b := range fn.Blocks {
+		for _, in := range b.Instrs {
+			switch x := in.(type) {
+			case *ssa.Range:
+				chk(x.X, x.Pos())
+			case *ssa.Lookup:
+				chk(x.X, x.Pos())
+			}
+		}
+	}
+	if n == 0 {
+		return
+	}
+	c.R.Check(bad == "", "R20.16", typ+"."+fn.Name()+": the map that is walked or probed is an operand's map on every path", p.Pos(fn.Pos()), fmt.Sprintf("%d map variables chosen among the operands", n),
+		"the map used at "+bad+" is nil on some path (no branch assigned it): for that combination of sizes the loop sees no element - two sets of equal size with a common element are reported disjoint")
 }
